@@ -13,24 +13,25 @@ Dirs == {p \in [PhysRefs -> PhysConts] : /\ p["ca:n1"] \in {"missing", "empty", 
                                         /\ p["ca:n2"] \in {"unrelated", "root"} /\ p["sa:n2"] \in {"unrelated", "root"}
                                         /\ p["tsa:n1"] \in {"root", "tsaRoot"}
                                         /\ (~Wide => p["ca:n2"] = "unrelated" /\ p["sa:n2"] = "root" /\ p["tsa:n1"] = "root")}
-Lists == SeqsOf(PhysRefs, 1, MaxList)
+Lists == SeqsOf(PhysRefs, 1, MaxList) \cup {<<t>> : t \in TravRefs} \cup {<<"ca:n2", "trav:ca->sa:n1">>, <<"trav:sa->ca:n1", "sa:n2">>}
 (* a time-stamped signature only where it makes a difference: scheme x509 with a tsa store listed *)
 Verifs == {v \in [scheme : {"x509", "sa"}, listed : Lists, ts : BOOLEAN] : v.ts => (v.scheme = "x509" /\ "tsa:n1" \in Range(v.listed))}
 
 Init == phys \in Dirs /\ hist = <<>> /\ answers = <<>>
 Verify(v) == /\ Len(hist) < HistLen
-             /\ hist' = Append(hist, v) /\ answers' = Append(answers, Answer(phys, v)) /\ UNCHANGED phys
+             /\ hist' = Append(hist, v) /\ answers' = Append(answers, IF Range(v.listed) \cap TravRefs = {} THEN Answer(phys, v) ELSE [authentic |-> FALSE]) /\ UNCHANGED phys
 Next == \E v \in Verifs : Verify(v)
 Spec == Init /\ [][Next]_<<phys, hist, answers>>
 
 (* operational = declarative, for every verification of every history *)
-Inv_C03H == \A i \in 1..Len(hist) : answers[i].authentic = D_Authentic(phys, hist[i])
+Plain(v) == Range(v.listed) \cap TravRefs = {}
+Inv_C03H == \A i \in 1..Len(hist) : Plain(hist[i]) => answers[i].authentic = D_Authentic(phys, hist[i])
 (* history independence: an answer never depends on what was verified before *)
-Inv_Stateless == \A i \in 1..Len(hist) : answers[i] = Answer(phys, hist[i])
+Inv_Stateless == \A i \in 1..Len(hist) : Plain(hist[i]) => answers[i] = Answer(phys, hist[i])
 (* the directory view refines the four-store model of VStores *)
-Inv_Refines == Len(hist) = 1 => \A i \in 1..Len(hist) : PAnchor(phys, hist[i]) = StoresAnchor(Abs(phys, hist[i]))
+Inv_Refines == Len(hist) = 1 /\ Plain(hist[1]) => \A i \in 1..Len(hist) : PAnchor(phys, hist[i]) = StoresAnchor(Abs(phys, hist[i]))
 (* stores of another type never matter, whatever they hold *)
-Inv_Frame == Len(hist) = 1 => \A i \in 1..Len(hist) : \A r \in PhysRefs : PType(r) # PWanted(hist[i].scheme) =>
+Inv_Frame == Len(hist) = 1 /\ Plain(hist[1]) => \A i \in 1..Len(hist) : \A r \in PhysRefs : PType(r) # PWanted(hist[i].scheme) =>
                \A c \in PhysConts : Answer([phys EXCEPT ![r] = c], hist[i]) = Answer(phys, hist[i])
 
 Inv_Emit == (Emit /\ Len(hist) = HistLen) => PrintT("CASE " \o ToJson([in |-> [phys |-> phys, hist |-> hist], nt |-> TRUE]))
